@@ -33,7 +33,8 @@ RULE = (
     "one run = one seeded configuration (recording length 1500-40000, batch size in {2560,3072,4096,6144,8192}, 1-8 workers, 8-96 channels, "
     "k-filter/CAR, channel rejection, whitening none/scalar/matrix, padding, sync kept or dropped, append history, saturated stretches incl. "
     "across batch seams) executed once sequentially with one worker (reference) and once with n workers under a seeded schedule (which worker "
-    "advances, for how many lines of the worker body, starvation bias, run-to-completion in permuted order ... line-level interleaving). "
+    "advances, for how many lines of the worker body, starvation bias, run-to-completion in permuted order ... line-level interleaving, "
+    "one task held at a chosen file-touching source line until the others have finished; hold-point sweeps over every such line). "
     "Oracle: output size, write-extent history (union exact, rewritten bytes identical, file never re-created), sync column bit-exact, bytes "
     "equal to the one-worker run, within 1 LSB of batch-wise in-memory destripe, append = concatenation, QC entry counts. "
     "distinct_nontrivial counts distinct schedule-trace digests among runs with >= 2 workers and >= 1 switch between two workers' writes, plus "
@@ -48,7 +49,8 @@ COMPONENTS = {
 ASSUMPTIONS = [
     "threads stand in for joblib's worker processes; arguments are pickled per task and closure data deep-copied per task, module globals are shared",
     "pyfftw is a stand-in: single-precision FFTW numerics are not those of production; comparison with float64 in-memory destriping allows 1 LSB",
-    "stores through np.memmap (saturation QC file) are not events; contents of QC files are not compared across schedules (legitimately last-writer-wins on overlaps), only entry counts",
+    "stores through np.memmap (saturation QC file) are not events; the saturation flags are compared with the one-worker run except at batch-end samples (legitimately last-writer-wins there); RMS/timestamp files by entry count",
+    "world preparation (compression of the input, splitting into shank files, counting channels inside the brain) and the oracle's geometry run in forked processes, so that the harness neither warms nor consults per-process state of the system",
     "recordings have at least 1500 samples (> taper length 1024)",
 ]
 
